@@ -55,6 +55,9 @@ type Round struct {
 	// (default) | down | noll; dial:opaque: listen (default) | filter | ctrl |
 	// join (the socket exists by then).
 	How string `json:"how,omitempty"`
+	// Teardown: steps of giving the connection up which fail (the interface is
+	// gone by then: ENODEV): leave | close | both. Real dial() only.
+	Teardown string `json:"teardown,omitempty"`
 }
 
 // An SPlan is one simulated run of Dialer.Dial.
@@ -221,11 +224,24 @@ func (c *simSock) SetICMPFilter(*ipv6.ICMPFilter) error            { return c.fa
 func (c *simSock) SetControlMessage(ipv6.ControlFlags, bool) error { return c.fail("ctrl") }
 func (c *simSock) JoinGroup(netip.Addr) error                      { return c.fail("join") }
 func (c *simSock) LeaveGroup(netip.Addr) error {
-	c.k.lg.Add(verifsim.Event{K: "leave", Gen: c.gen})
+	e := verifsim.Event{K: "leave", Gen: c.gen}
+	if c.r.Teardown == "leave" || c.r.Teardown == "both" {
+		e.Err = "ENODEV"
+		c.k.lg.Add(e)
+		return &net.OpError{Op: "setsockopt", Net: "ip6:ipv6-icmp", Err: os.NewSyscallError("setsockopt", syscall.ENODEV)}
+	}
+	c.k.lg.Add(e)
 	return nil
 }
 func (c *simSock) Close() error {
-	c.k.lg.Add(verifsim.Event{K: "close", Gen: c.gen})
+	// the descriptor is released whatever close(2) reports
+	e := verifsim.Event{K: "close", Gen: c.gen}
+	if c.r.Teardown == "close" || c.r.Teardown == "both" {
+		e.Err = "EIO"
+		c.k.lg.Add(e)
+		return &net.OpError{Op: "close", Net: "ip6:ipv6-icmp", Err: os.NewSyscallError("close", syscall.EIO)}
+	}
+	c.k.lg.Add(e)
 	return nil
 }
 
@@ -614,6 +630,11 @@ func c11Gen(rng *verifsim.RNG, idx int, tier string) any {
 			r.Restore = sysctlKinds[rng.Intn(4)]
 		}
 		r.Flip = i > 0 && rng.Bool(0.2)
+		if rng.Bool(0.15) {
+			// giving the connection up meets errors of its own (the interface
+			// has vanished): they must not keep the sysctl from being put back
+			r.Teardown = []string{"leave", "close", "both"}[rng.Intn(3)]
+		}
 		p.Rounds = append(p.Rounds, r)
 	}
 	if rng.Bool(0.6) {
@@ -830,6 +851,12 @@ func c10Backoff(res *verifsim.Result, waits []int64, attempts int) {
 
 // c11Oracle: connections cleaned up exactly once; autoconf always restored.
 func c11Oracle(p *SPlan, ev []verifsim.Event, res *verifsim.Result) {
+	for i := range ev {
+		// injected failures that took effect, for the evidence
+		if e := &ev[i]; e.Err != "" && (e.K == "leave" || e.K == "close" || e.K == "auto.get" || e.K == "auto.set") {
+			res.Fault("dialer." + e.K + "." + e.Err)
+		}
+	}
 	open := map[int]bool{}
 	closed := map[int]int{}
 	var ret *verifsim.Event
